@@ -201,7 +201,7 @@ def run_mem(shard, tier, acc):
             acc.sample({'family': name, 'types': types, 'base': base, 'history_graph_nodes': nnodes}, cap=1)
 
 
-KEYWORDS = ('runaway', 'order', 'above', 'lost', 'repeat', 'crash', 'nosave', 'uuid', 'harness', 'nondeterministic')
+KEYWORDS = ('lost-guess', 'runaway', 'order', 'above', 'lost', 'repeat', 'crash', 'nosave', 'uuid', 'harness', 'nondeterministic')
 
 
 def signature(msg):
@@ -305,6 +305,14 @@ def explore_session(td, spec, acc, flags=()):
     maxdepth = 3
     while frontier:
         sav_raw, p, depth, omn = frontier.pop(0)
+        # the complete stream from this state (guess level): what a quit run and its resumed run must deliver between them
+        if sav_raw is None:
+            full = Counter(U.stdout)
+        else:
+            S.set_session(td, sav_raw, omn)
+            F = S.run_guesser(td, ['-r', 'v', '--load'])
+            acc.evals += 1
+            full = Counter(F.stdout) if not F.exc else None
         # all quit moments from this state
         for j in range(0, total_guesses + 1):
             S.set_session(td, sav_raw, omn)
@@ -347,6 +355,12 @@ def explore_session(td, spec, acc, flags=()):
                 if sav_raw is None and cover[pt] < m:
                     msgs.append('lost: %r appears in neither run A (quit at guess %d) nor run B' % (pt, j))
                     break
+            # the same at guess level: a pre-terminal that was begun before the quit is not begun again, so every one of its strings has to be out
+            if full is not None:
+                short = full - (Counter(A.stdout) + Counter(B.stdout))
+                if short:
+                    msgs.append('lost-guess: %d strings of the complete stream from this state are written neither by the run that quit at guess %d nor by the resumed run (e.g. %r)'
+                                % (sum(short.values()), j, sorted(short)[:4]))
             for m in msgs[:2]:
                 fails.append('quit_after=%d from state %r -> saved %r: %s' % (j, p, newp, m))
             key = (tuple(sorted((k, v) for k, v in A.sav.items() if k.startswith('guessing_info'))), A.omn)
